@@ -23,7 +23,11 @@ def run_one(sid):
                         stdout=subprocess.DEVNULL, stderr=subprocess.DEVNULL)
   try:
     subprocess.check_call(["git", "-C", wt, "apply", os.path.join(d, "patch.diff")])
-    env = dict(os.environ, PYTYPE_REPO=wt)
+    # private copy of the Lean workspace (sources + build output): the regenerated tables and rebuilt proofs of
+    # this run never touch /verif/lean, so seeded runs can go in parallel with each other and with real checks
+    lean = os.path.join(VERIF, "build", "lean-seeded-%s" % sid)
+    subprocess.check_call(["rsync", "-a", "--delete", os.path.join(VERIF, "lean") + "/", lean + "/"])
+    env = dict(os.environ, PYTYPE_REPO=wt, VERIF_LEAN_DIR=lean)
     t0 = time.time()
     r = subprocess.run(["./check", prop, "--tier", os.environ.get("VERIF_TIER", "quick")], cwd=VERIF, env=env,
                        stdout=subprocess.PIPE, stderr=subprocess.STDOUT, text=True, timeout=3600)
@@ -33,20 +37,42 @@ def run_one(sid):
             "with_input": any(l.startswith("VIOLATION") and "no-failing-input-found" not in l for l in lines)}
   finally:
     subprocess.call(["git", "-C", "/repo", "worktree", "remove", "--force", wt], stderr=subprocess.DEVNULL)
+    subprocess.call(["rm", "-rf", os.path.join(VERIF, "build", "lean-seeded-%s" % sid),
+                     os.path.join(VERIF, "build", "lean-seeded-%s.lock" % sid)])
 
 
 def main():
-  ids = sys.argv[1:] or sorted(os.listdir(os.path.join(VERIF, "seeded")))
-  out = []
+  """ids...  [-j N]: changes of different properties run in parallel (N groups at a time); changes of one
+  property run one after the other (they share build/<prop> scratch and replay names)."""
+  argv = sys.argv[1:]
+  jobs = 1
+  if "-j" in argv:
+    i = argv.index("-j")
+    jobs = int(argv[i + 1])
+    del argv[i:i + 2]
+  ids = argv or sorted(os.listdir(os.path.join(VERIF, "seeded")))
+  ids = [s for s in ids if os.path.exists(os.path.join(VERIF, "seeded", s, "patch.diff"))]
+  groups = {}
   for sid in ids:
-    if not os.path.exists(os.path.join(VERIF, "seeded", sid, "patch.diff")):
-      continue
-    try:
-      res = run_one(sid)
-    except Exception as e:  # pylint: disable=broad-except
-      res = {"id": sid, "error": repr(e)}
-    print(json.dumps(res))
-    out.append(res)
+    groups.setdefault(sid.split("-")[0], []).append(sid)
+
+  def run_group(g):
+    out = []
+    for sid in g:
+      try:
+        res = run_one(sid)
+      except Exception as e:  # pylint: disable=broad-except
+        res = {"id": sid, "error": repr(e)}
+      print(json.dumps(res), flush=True)
+      out.append(res)
+    return out
+  import concurrent.futures  # pylint: disable=import-outside-toplevel
+  with concurrent.futures.ThreadPoolExecutor(max_workers=jobs) as ex:
+    results = [r for rs in ex.map(run_group, groups.values()) for r in rs]
+  with open(os.path.join(VERIF, "build", "seeded-results.json"), "w") as fh:
+    json.dump(results, fh, indent=1)
+  missed = [r["id"] for r in results if not r.get("detected")]
+  print("seeded: %d run, %d detected, missed: %s" % (len(results), len(results) - len(missed), missed))
   return 0
 
 
